@@ -4,8 +4,30 @@ import MakoModel.Paths8.Lemmas
 
 Theorems about the models of `MakoModel/Paths8/Model.lean`.  What is *proved* here is about the models; the
 models are tied to /repo by `harness/props/C08.py` (op-level comparison of `module_id`, path selection,
-`_kwargs_for_callable`, registry reads, the emitted declaration blocks per PYTHONHASHSEED) and the property itself
-is searched for violations by the multi-path differential of that file.
+`_kwargs_for_callable`, registry reads, `ModuleInfo.source` / `.code` reads, the directory probe order, the emitted
+declaration blocks per PYTHONHASHSEED) and by regenerated tables and flags (`Generated/Paths8.lean`,
+`Generated/ModFile.lean`, `Generated/Unicode.lean`); the property itself is searched for violations by the multi-path,
+multi-hash-seed differential of that file.
+
+The 31 theorems, by section:
+* declaration blocks – `decl_block_of_set_order`, `declaration_order_irrelevant`, `declaration_order_output`,
+  `declaration_order_exception_unique`, `declaration_order_deterministic`, `locals_snapshot_lookup_irrelevant`,
+  `locals_snapshot_deterministic`, `remaining_set_prints_sorted`; documentation of the behaviour before the generator
+  sorted its sets: `declaration_order_exception_unsorted_counterexample`, `locals_snapshot_keys_unsorted_counterexample`;
+* text path vs module-file path – `preamble_matches_source`, `magic_comment_flags`, `module_text_paths_agree`,
+  `line_map_shift`;
+* path selection – `path_selection`, `module_filename_spelling_irrelevant` (a relative `module_filename` and its
+  absolute spelling select the same absolute, normalised module path), `directory_order_is_configuration_order` (several
+  directories: the first configured one that contains the URI, whatever the set iteration order);
+* registry – `registry_injective`, `registry_injective_partial`, `module_id_regex_is_modelled`,
+  `module_id_collision_iff`, `module_id_not_injective_counterexample`;
+* `source` / `code` reads – `source_strips_exactly_one_bom` (regenerated fact), `source_path_independent` (every
+  path that holds the template as bytes decodes exactly the bytes the lexer decoded), `source_lstrip_counterexample`
+  (documentation), `code_reads_current_module_file` (a module-file template's code is the current file content after
+  any history of rewrites);
+* which module executes – `bytecode_dropped_after_both_writers` (regenerated facts, one per writer branch),
+  `regenerated_module_executes`, `regenerated_module_stale_bytecode_counterexample` (documentation);
+* defs – `def_template_render`, `list_defs_has_def`.
 
 OPEN (recorded finding, see known_findings.json):
 * F5  – `module_id` is not injective (`/a-b.html` vs `/a_b.html`), so "every live template with its own URI reads
